@@ -66,3 +66,58 @@ class OpenString(BObl):
 
 
 OBLIGATIONS = [OpenString()]
+
+
+class StrayBom(BObl):
+    id = 'C07.B.stray-bom'
+    property = 'C07'
+    rule = ('a well-formed document with byte-order marks added: exactly one at the very start is tolerated, any '
+            'other (a second leading one, one between or inside elements, one at the end) is a stray token and the '
+            'parse must raise a pyparsing error; through every text entry point')
+    bound = 'exhaustive: 5 placements x 3 entry points'
+
+    def cases(self, tier, seed):
+        for place in ('one-leading', 'two-leading', 'three-leading', 'between', 'end'):
+            for route in ('ctor', 'parse', 'file'):
+                yield {'place': place, 'route': route}
+
+    def exhaustive(self, tier):
+        return True
+
+    def check(self, r):
+        import io
+        import os
+        import tempfile
+        import pyparsing as pp
+        from pydbml import PyDBML
+        base = 'Table a {\n  id int\n}\n'
+        other = 'Table b {\n  id int\n}\n'
+        bom = '\ufeff'
+        text = {'one-leading': bom + base + other, 'two-leading': bom * 2 + base,
+                'three-leading': bom * 3 + base, 'between': base + bom + other,
+                'end': base + bom}[r['place']]
+        want_ok = r['place'] == 'one-leading'
+        try:
+            if r['route'] == 'ctor':
+                PyDBML(text)
+            elif r['route'] == 'parse':
+                PyDBML.parse(text)
+            else:
+                fd, path = tempfile.mkstemp(suffix='.dbml')
+                try:
+                    with os.fdopen(fd, 'w', encoding='utf8') as f:
+                        f.write(text)
+                    PyDBML.parse_file(path)
+                finally:
+                    os.unlink(path)
+            ok = True
+        except pp.ParseBaseException:
+            ok = False
+        except Exception as e:
+            return (f'wrong-exception:{type(e).__name__}', repr(text))
+        if ok != want_ok:
+            return (f'{"accepted" if ok else "rejected"}:{r["place"]}:{r["route"]}', repr(text))
+        return None
+
+
+OBLIGATIONS.append(StrayBom())
